@@ -1,0 +1,398 @@
+//go:build verif
+
+// Contracts for govc (/verif): C25 "Mint schedule and distribution are bounded, exact and work-monotone". Comment-only file.
+
+package kernel
+
+// ───────────── the schedule as mathematics ─────────────
+
+//@ -- MintPool / MintYearPercent are assigned once (package initialisation: NewInteger(500000), NewInteger(10).Ration(NewInteger(100)))
+//@ -- and never written afterwards (grep: only read, in kernel/mint.go).
+//@ axiom val(MintPool) == 50000000000000 && MintYearPercent.x == 1000000000 && MintYearPercent.y == 10000000000
+//@ -- … and the values are those of the initializer expressions: checked on the package initializer (initguard(): its init$guard flag)
+//@ func init
+//@   property C25
+//@   ensures [mint-globals] !old(initguard()) ==> val(MintPool) == 50000000000000 && MintYearPercent.x == 1000000000 && MintYearPercent.y == 10000000000
+
+//@ -- Pool(y): what is left of the pool after y whole years;  Size(b): the amount of batch (day) b;  Cum(n): Size(1) + … + Size(n)
+//@ rec Pool(y int) mathint = y <= 0 ? 50000000000000 : Pool(y - 1) - Pool(y - 1) / 10
+//@ spec Size(b int) mathint = Pool(b / 365) / 10 / 365
+//@ rec Cum(n int) mathint = n <= 0 ? 0 : Cum(n - 1) + Size(n)
+
+//@ func mintBatchSize
+//@   property C25
+//@   -- [live]: the schedule horizon of this function: pool.Sub(year) rejects a zero year, i.e. Pool(j) < 10
+//@   requires [live] forall j int :: 0 <= j && j < batch / 365 ==> Pool(j) >= 10
+//@   panics when batch / 365 > 10000
+//@   modifies nothing
+//@   ensures [size] val(result) == Size(batch)
+//@   loop 0 invariant 0 <= i && i <= batch / 365 && val(pool) == Pool(i) && Pool(i + 1) == Pool(i) - Pool(i) / 10
+
+//@ func mintMultiBatchesSize(from, batch)
+//@   property C25
+//@   -- [horizon]: amount.Add(size) rejects a zero size, i.e. Pool(year) < 3650 (see lemma Horizon for the concrete number)
+//@   requires [horizon] batch / 365 <= 10000 && forall j int :: 0 <= j && j <= batch / 365 ==> Pool(j) >= 3650
+//@   panics when from >= batch
+//@   modifies nothing
+//@   ensures [sum] val(result) == Cum(batch) - Cum(from)
+//@   loop 0 invariant from < i && i <= batch + 1 && val(amount) >= 0 && val(amount) == Cum(i - 1) - Cum(from) && Cum(i) == Cum(i - 1) + Size(i)
+
+// ───────────── lemmas about the schedule (induction: see `induct` in govc/ext_induct.go) ─────────────
+
+//@ lemma PoolNonNeg(y mathint)
+//@   property C25
+//@   induct y
+//@   requires y >= 0
+//@   ensures [nonneg] Pool(y) >= 0
+//@   pattern Pool(y)
+
+//@ -- the pool never grows
+//@ lemma PoolMono(a mathint, b mathint)
+//@   property C25
+//@   induct b
+//@   uses PoolNonNeg
+//@   requires 0 <= a && a <= b
+//@   ensures [mono] Pool(a) >= Pool(b)
+//@   pattern Pool(a), Pool(b)
+
+//@ -- "Per-batch mint amounts never increase"
+//@ lemma SizeMono(b1 mathint, b2 mathint)
+//@   property C25
+//@   uses PoolMono
+//@   requires 0 <= b1 && b1 <= b2
+//@   ensures [never-increase] Size(b1) >= Size(b2)
+
+//@ -- "their cumulative total never exceeds the mint pool": Cum(n) = Size(1) + … + Size(n). The induction carries the stronger
+//@ -- statement that what has been minted in the years before plus the current year's batches so far fits into what left the pool.
+//@ lemma CumBound(n mathint)
+//@   property C25
+//@   induct n
+//@   uses PoolNonNeg
+//@   requires n >= 0
+//@   ensures [idx] n >= 1 ==> (n % 365 != 0 ==> (n - 1) / 365 == n / 365 && (n - 1) % 365 == n % 365 - 1) &&
+//@       (n % 365 == 0 ==> (n - 1) / 365 == n / 365 - 1 && (n - 1) % 365 == 364)
+//@   ensures [year] n >= 1 && n % 365 == 0 ==> Pool(n / 365) == Pool(n / 365 - 1) - Pool(n / 365 - 1) / 10
+//@   ensures [unfold] n >= 1 ==> Cum(n) == Cum(n - 1) + Size(n)
+//@   ensures [same-year] n % 365 != 0 ==> Cum(n) + Pool(n / 365) <= 50000000000000 + (n % 365 + 1) * Size(n)
+//@   ensures [new-year] n % 365 == 0 ==> Cum(n) + Pool(n / 365) <= 50000000000000 + Size(n)
+//@   ensures [step] Cum(n) + Pool(n / 365) <= 50000000000000 + (n % 365 + 1) * Size(n)
+//@   ensures [size-nonneg] Size(n) >= 0
+//@   ensures [year-part] (n % 365 + 1) * Size(n) <= 365 * Size(n)
+//@   ensures [year-budget] 365 * Size(n) <= Pool(n / 365) / 10
+//@   ensures [next] Pool(n / 365 + 1) == Pool(n / 365) - Pool(n / 365) / 10
+//@   ensures [total] Cum(n) <= 50000000000000 - Pool(n / 365 + 1)
+//@   ensures [within-pool] Cum(n) <= 50000000000000
+
+//@ -- Ground evaluation of the schedule: the table of Pool(0..284) (computed outside, CHECKED here entry by entry by the induction step).
+//@ spec PoolTabA(y int) mathint = y == 0 ? 50000000000000 : (y == 1 ? 45000000000000 : (y == 2 ? 40500000000000 : (y == 3 ? 36450000000000 : (y == 4 ? 32805000000000 : (y == 5 ? 29524500000000 : (y == 6 ? 26572050000000 : (y == 7 ? 23914845000000 : (y == 8 ? 21523360500000 : (y == 9 ? 19371024450000 : (y == 10 ? 17433922005000 : (y == 11 ? 15690529804500 : (y == 12 ? 14121476824050 : (y == 13 ? 12709329141645 : (y == 14 ? 11438396227481 : (y == 15 ? 10294556604733 : (y == 16 ? 9265100944260 : (y == 17 ? 8338590849834 : (y == 18 ? 7504731764851 : (y == 19 ? 6754258588366 : (y == 20 ? 6078832729530 : (y == 21 ? 5470949456577 : (y == 22 ? 4923854510920 : (y == 23 ? 4431469059828 : (y == 24 ? 3988322153846 : (y == 25 ? 3589489938462 : (y == 26 ? 3230540944616 : (y == 27 ? 2907486850155 : (y == 28 ? 2616738165140 : (y == 29 ? 2355064348626 : (y == 30 ? 2119557913764 : (y == 31 ? 1907602122388 : (y == 32 ? 1716841910150 : (y == 33 ? 1545157719135 : (y == 34 ? 1390641947222 : (y == 35 ? 1251577752500 : (y == 36 ? 1126419977250 : (y == 37 ? 1013777979525 : (y == 38 ? 912400181573 : (y == 39 ? 821160163416 : (y == 40 ? 739044147075 : (y == 41 ? 665139732368 : (y == 42 ? 598625759132 : (y == 43 ? 538763183219 : (y == 44 ? 484886864898 : (y == 45 ? 436398178409 : (y == 46 ? 392758360569 : (y == 47 ? 353482524513 : (y == 48 ? 318134272062 : (y == 49 ? 286320844856 : (y == 50 ? 257688760371 : (y == 51 ? 231919884334 : (y == 52 ? 208727895901 : (y == 53 ? 187855106311 : (y == 54 ? 169069595680 : (y == 55 ? 152162636112 : (y == 56 ? 136946372501 : (y == 57 ? 123251735251 : (y == 58 ? 110926561726 : (y == 59 ? 99833905554 : (y == 60 ? 89850514999 : (y == 61 ? 80865463500 : (y == 62 ? 72778917150 : (y == 63 ? 65501025435 : (y == 64 ? 58950922892 : (y == 65 ? 53055830603 : (y == 66 ? 47750247543 : (y == 67 ? 42975222789 : (y == 68 ? 38677700511 : (y == 69 ? 34809930460 : (y == 70 ? 31328937414 : (y == 71 ? 28196043673 : (y == 72 ? 25376439306 : (y == 73 ? 22838795376 : (y == 74 ? 20554915839 : (y == 75 ? 18499424256 : (y == 76 ? 16649481831 : (y == 77 ? 14984533648 : (y == 78 ? 13486080284 : (y == 79 ? 12137472256 : (y == 80 ? 10923725031 : (y == 81 ? 9831352528 : (y == 82 ? 8848217276 : (y == 83 ? 7963395549 : (y == 84 ? 7167055995 : (y == 85 ? 6450350396 : (y == 86 ? 5805315357 : (y == 87 ? 5224783822 : (y == 88 ? 4702305440 : (y == 89 ? 4232074896 : (y == 90 ? 3808867407 : (y == 91 ? 3427980667 : (y == 92 ? 3085182601 : (y == 93 ? 2776664341 : (y == 94 ? 2498997907 : (y == 95 ? 2249098117 : (y == 96 ? 2024188306 : (y == 97 ? 1821769476 : (y == 98 ? 1639592529 : (y == 99 ? 1475633277 : (0))))))))))))))))))))))))))))))))))))))))))))))))))))))))))))))))))))))))))))))))))))))))))))))))))))
+//@ spec PoolTabB(y int) mathint = y == 100 ? 1328069950 : (y == 101 ? 1195262955 : (y == 102 ? 1075736660 : (y == 103 ? 968162994 : (y == 104 ? 871346695 : (y == 105 ? 784212026 : (y == 106 ? 705790824 : (y == 107 ? 635211742 : (y == 108 ? 571690568 : (y == 109 ? 514521512 : (y == 110 ? 463069361 : (y == 111 ? 416762425 : (y == 112 ? 375086183 : (y == 113 ? 337577565 : (y == 114 ? 303819809 : (y == 115 ? 273437829 : (y == 116 ? 246094047 : (y == 117 ? 221484643 : (y == 118 ? 199336179 : (y == 119 ? 179402562 : (y == 120 ? 161462306 : (y == 121 ? 145316076 : (y == 122 ? 130784469 : (y == 123 ? 117706023 : (y == 124 ? 105935421 : (y == 125 ? 95341879 : (y == 126 ? 85807692 : (y == 127 ? 77226923 : (y == 128 ? 69504231 : (y == 129 ? 62553808 : (y == 130 ? 56298428 : (y == 131 ? 50668586 : (y == 132 ? 45601728 : (y == 133 ? 41041556 : (y == 134 ? 36937401 : (y == 135 ? 33243661 : (y == 136 ? 29919295 : (y == 137 ? 26927366 : (y == 138 ? 24234630 : (y == 139 ? 21811167 : (y == 140 ? 19630051 : (y == 141 ? 17667046 : (y == 142 ? 15900342 : (y == 143 ? 14310308 : (y == 144 ? 12879278 : (y == 145 ? 11591351 : (y == 146 ? 10432216 : (y == 147 ? 9388995 : (y == 148 ? 8450096 : (y == 149 ? 7605087 : (y == 150 ? 6844579 : (y == 151 ? 6160122 : (y == 152 ? 5544110 : (y == 153 ? 4989699 : (y == 154 ? 4490730 : (y == 155 ? 4041657 : (y == 156 ? 3637492 : (y == 157 ? 3273743 : (y == 158 ? 2946369 : (y == 159 ? 2651733 : (y == 160 ? 2386560 : (y == 161 ? 2147904 : (y == 162 ? 1933114 : (y == 163 ? 1739803 : (y == 164 ? 1565823 : (y == 165 ? 1409241 : (y == 166 ? 1268317 : (y == 167 ? 1141486 : (y == 168 ? 1027338 : (y == 169 ? 924605 : (y == 170 ? 832145 : (y == 171 ? 748931 : (y == 172 ? 674038 : (y == 173 ? 606635 : (y == 174 ? 545972 : (y == 175 ? 491375 : (y == 176 ? 442238 : (y == 177 ? 398015 : (y == 178 ? 358214 : (y == 179 ? 322393 : (y == 180 ? 290154 : (y == 181 ? 261139 : (y == 182 ? 235026 : (y == 183 ? 211524 : (y == 184 ? 190372 : (y == 185 ? 171335 : (y == 186 ? 154202 : (y == 187 ? 138782 : (y == 188 ? 124904 : (y == 189 ? 112414 : (y == 190 ? 101173 : (y == 191 ? 91056 : (y == 192 ? 81951 : (y == 193 ? 73756 : (y == 194 ? 66381 : (y == 195 ? 59743 : (y == 196 ? 53769 : (y == 197 ? 48393 : (y == 198 ? 43554 : (y == 199 ? 39199 : (0))))))))))))))))))))))))))))))))))))))))))))))))))))))))))))))))))))))))))))))))))))))))))))))))))))
+//@ spec PoolTabC(y int) mathint = y == 200 ? 35280 : (y == 201 ? 31752 : (y == 202 ? 28577 : (y == 203 ? 25720 : (y == 204 ? 23148 : (y == 205 ? 20834 : (y == 206 ? 18751 : (y == 207 ? 16876 : (y == 208 ? 15189 : (y == 209 ? 13671 : (y == 210 ? 12304 : (y == 211 ? 11074 : (y == 212 ? 9967 : (y == 213 ? 8971 : (y == 214 ? 8074 : (y == 215 ? 7267 : (y == 216 ? 6541 : (y == 217 ? 5887 : (y == 218 ? 5299 : (y == 219 ? 4770 : (y == 220 ? 4293 : (y == 221 ? 3864 : (y == 222 ? 3478 : (y == 223 ? 3131 : (y == 224 ? 2818 : (y == 225 ? 2537 : (y == 226 ? 2284 : (y == 227 ? 2056 : (y == 228 ? 1851 : (y == 229 ? 1666 : (y == 230 ? 1500 : (y == 231 ? 1350 : (y == 232 ? 1215 : (y == 233 ? 1094 : (y == 234 ? 985 : (y == 235 ? 887 : (y == 236 ? 799 : (y == 237 ? 720 : (y == 238 ? 648 : (y == 239 ? 584 : (y == 240 ? 526 : (y == 241 ? 474 : (y == 242 ? 427 : (y == 243 ? 385 : (y == 244 ? 347 : (y == 245 ? 313 : (y == 246 ? 282 : (y == 247 ? 254 : (y == 248 ? 229 : (y == 249 ? 207 : (y == 250 ? 187 : (y == 251 ? 169 : (y == 252 ? 153 : (y == 253 ? 138 : (y == 254 ? 125 : (y == 255 ? 113 : (y == 256 ? 102 : (y == 257 ? 92 : (y == 258 ? 83 : (y == 259 ? 75 : (y == 260 ? 68 : (y == 261 ? 62 : (y == 262 ? 56 : (y == 263 ? 51 : (y == 264 ? 46 : (y == 265 ? 42 : (y == 266 ? 38 : (y == 267 ? 35 : (y == 268 ? 32 : (y == 269 ? 29 : (y == 270 ? 27 : (y == 271 ? 25 : (y == 272 ? 23 : (y == 273 ? 21 : (y == 274 ? 19 : (y == 275 ? 18 : (y == 276 ? 17 : (y == 277 ? 16 : (y == 278 ? 15 : (y == 279 ? 14 : (y == 280 ? 13 : (y == 281 ? 12 : (y == 282 ? 11 : (y == 283 ? 10 : (y == 284 ? 9 : (0)))))))))))))))))))))))))))))))))))))))))))))))))))))))))))))))))))))))))))))))))))))
+//@ spec PoolTab(y int) mathint = y < 100 ? PoolTabA(y) : y < 200 ? PoolTabB(y) : PoolTabC(y)
+//@ lemma PoolTable(y mathint)
+//@   property C25
+//@   induct y
+//@   requires 0 <= y && y <= 284
+//@   ensures [table] Pool(y) == PoolTab(y)
+//@   pattern Pool(y)
+
+//@ -- The horizons. Pool(221) = 3864 >= 3650 > 3478 = Pool(222): batch 222*365-1 = 81029 is the last one with a positive size;
+//@ -- Pool(283) = 10 > 9 = Pool(284): pool.Sub(year) in mintBatchSize is defined for batch/365 <= 284.
+//@ lemma HorizonValue()
+//@   property C25
+//@   uses PoolTable
+//@   ensures [y221] Pool(221) == 3864
+//@   ensures [y222] Pool(222) == 3478
+//@   ensures [y283] Pool(283) == 10
+//@   ensures [y284] Pool(284) == 9
+
+//@ lemma Horizon(j mathint)
+//@   property C25
+//@   uses PoolMono, HorizonValue
+//@   requires 0 <= j
+//@   ensures [positive-size] j <= 221 ==> Pool(j) >= 3650
+//@   ensures [live] j <= 283 ==> Pool(j) >= 10
+//@   pattern Pool(j)
+
+//@ -- a multi-batch mint is at least its last batch
+//@ lemma CumGap(a mathint, b mathint)
+//@   property C25
+//@   induct b
+//@   uses PoolNonNeg
+//@   requires 0 <= a && a < b
+//@   ensures [gap] Cum(b) - Cum(a) >= Size(b) && Size(b) >= 0
+
+//@ -- the positivity horizon: during the first 101 years every batch is at least 363854 (0.00363854 XIN); and the last legacy batch
+//@ lemma MintFloor(b mathint)
+//@   property C25
+//@   uses PoolMono, PoolTable
+//@   requires 0 <= b && b / 365 <= 100
+//@   ensures [floor] Size(b) >= 363854
+//@   ensures [legacy] Size(1706) == 8987671232
+
+// ───────────── the distribution as mathematics ─────────────
+
+//@ -- RawWork: the work of a node as the code computes it from the stored (lead, sign) counts: lead*1e8*120/100 (+ sign*1e8 when sign > 0)
+//@ spec RawWork(lead mathint, sign mathint) mathint = lead * 100000000 * 120 / 100 + (sign > 0 ? sign * 100000000 : 0)
+//@ -- Shape: the four-piece function of kernel/mint.go (a = average work), with its floors exactly as coded.
+//@ -- Share: what a node with shaped work s receives of base b when the shaped works add up to t.
+//@ -- Both are function SYMBOLS with a definitional axiom (not macros), so that the lemmas below can be instantiated by pattern.
+//@ uninterp Shape(a mathint, w mathint) mathint
+//@ axiom forall a, w mathint :: {Shape(a, w)} Shape(a, w) == (w >= 7 * a ? 2 * a : (w >= a ? w / 6 + 5 * a / 6 : (w <= a / 7 ? a / 7 : w)))
+//@ uninterp Share(s mathint, b mathint, t mathint) mathint
+//@ axiom forall s, b, t mathint :: {Share(s, b, t)} Share(s, b, t) == s * b / t
+//@ -- Cap(a, n) = 2*a*n, as a sum: the bound of n shaped works
+//@ rec Cap(a mathint, n int) mathint = n <= 0 ? 0 : Cap(a, n - 1) + 2 * a
+//@ lemma CapClosed(a mathint, n mathint)
+//@   property C25
+//@   induct n
+//@   requires n >= 0
+//@   ensures [closed] Cap(a, n) == 2 * a * n
+//@   pattern Cap(a, n)
+
+//@ -- "a node with more work never receives less": through the four pieces …
+//@ lemma ShapeMono(a mathint, w1 mathint, w2 mathint)
+//@   property C25
+//@   requires a > 0 && w1 >= w2 && w2 >= 0
+//@   ensures [mono] Shape(a, w1) >= Shape(a, w2)
+//@   pattern Shape(a, w1), Shape(a, w2)
+
+//@ lemma ShapeBounds(a mathint, w mathint)
+//@   property C25
+//@   requires a >= 7 && w >= 0
+//@   ensures [lower] Shape(a, w) >= a / 7 && a / 7 >= 1
+//@   ensures [upper] Shape(a, w) <= 2 * a
+//@   pattern Shape(a, w)
+
+//@ -- … and through the floor of s * base / total
+//@ lemma ShareMono(s1 mathint, s2 mathint, b mathint, t mathint)
+//@   property C25
+//@   requires t > 0 && b >= 0 && s1 >= s2 && s2 >= 0
+//@   ensures [mono] Share(s1, b, t) >= Share(s2, b, t) && Share(s2, b, t) >= 0
+//@   pattern Share(s1, b, t), Share(s2, b, t)
+
+//@ -- the distributed amounts never add up to more than the base: floor(x/t) + floor(y/t) <= floor((x+y)/t) …
+//@ lemma ShareSum(s1 mathint, s2 mathint, s3 mathint, b mathint, t mathint)
+//@   property C25
+//@   requires t > 0 && b >= 0 && s1 >= 0 && s2 >= 0 && s3 == s1 + s2
+//@   ensures [floor-sum] Share(s1, b, t) + Share(s2, b, t) <= Share(s3, b, t)
+//@   pattern Share(s1, b, t), Share(s2, b, t), Share(s3, b, t)
+
+//@ -- … and all shaped works together receive exactly the base
+//@ lemma ShareAll(b mathint, t mathint)
+//@   property C25
+//@   requires t > 0 && b >= 0
+//@   ensures [all] Share(t, b, t) == b && Share(0, b, t) == 0
+//@   pattern Share(t, b, t)
+
+//@ -- every share is positive when the base is at least 15 per node: s >= a/7, t <= 2*a*n, a >= 90
+//@ lemma SharePositive(a mathint, s mathint, b mathint, t mathint, n mathint)
+//@   property C25
+//@   uses CapClosed
+//@   requires a >= 90 && n >= 1 && s >= a / 7 && t >= s && t <= Cap(a, n) && b >= 15 * n
+//@   ensures [positive] Share(s, b, t) >= 1
+//@   pattern Share(s, b, t), Cap(a, n)
+
+//@ -- the equal split of the first day: n * floor(b/n) <= b, and floor(b/n) >= 1 when b >= n
+//@ lemma EqualSplit(b mathint, n mathint, k mathint)
+//@   property C25
+//@   requires n >= 1 && b >= 0 && 0 <= k && k <= n
+//@   ensures [bounded] k * (b / n) <= b
+//@   ensures [positive] b >= n ==> b / n >= 1
+
+//@ -- the average of valid-2 works of at least 1e8 each is at least 1e8
+//@ lemma AvgLower(x mathint, v mathint)
+//@   property C25
+//@   requires v >= 1 && x >= v * 100000000
+//@   ensures [avg] x / v >= 100000000
+
+// ───────────── the store as seen by the distribution (ASSUMED) ─────────────
+
+//@ -- StoreLead / StoreSign: the lead and sign counters the store holds for (node id, day). Uninterpreted: "arbitrary counts".
+//@ uninterp StoreLead(id crypto.Hash, day mathint) mathint
+//@ uninterp StoreSign(id crypto.Hash, day mathint) mathint
+
+//@ -- storage.BadgerStore.ListNodeWorks: a fresh map holding, for every requested id, the two uint64 counters of (id, day); reads only.
+//@ assume func (s storage.Store) ListNodeWorks(cids, day)
+//@   modifies nothing
+//@   ensures err == nil ==> result0 != nil
+//@   ensures err == nil ==> forall k int :: {cids[k]} 0 <= k && k < len(cids) ==>
+//@       has(result0, cids[k]) && result0[cids[k]][0] == StoreLead(cids[k], day) && result0[cids[k]][1] == StoreSign(cids[k], day) &&
+//@       0 <= StoreLead(cids[k], day) && StoreLead(cids[k], day) < 18446744073709551616 &&
+//@       0 <= StoreSign(cids[k], day) && StoreSign(cids[k], day) < 18446744073709551616
+
+//@ -- storage.BadgerStore.ListAggregatedRoundSpaceCheckpoints: every value of the returned map is `&common.RoundSpace{…}`; reads only.
+//@ assume func (s storage.Store) ListAggregatedRoundSpaceCheckpoints(cids)
+//@   modifies nothing
+//@   ensures err == nil ==> forall id crypto.Hash :: {result0[id]} has(result0, id) ==> result0[id] != nil
+
+//@ -- storage.BadgerStore.ReadNodeRoundSpacesForBatch: every element is `&common.RoundSpace{…}`; reads only.
+//@ assume func (s storage.Store) ReadNodeRoundSpacesForBatch(nodeId, batch)
+//@   modifies nothing
+//@   ensures err == nil ==> forall k int :: 0 <= k && k < len(result0) ==> result0[k] != nil
+
+//@ func (node *Node) ListRoundSpaces
+//@   property C25
+//@   requires node != nil && !isnil(node.persistStore)
+//@   modifies nothing
+//@   ensures [elems] err == nil ==> forall id crypto.Hash :: forall k int :: has(result0, id) && 0 <= k && k < len(result0[id]) ==> result0[id][k] != nil
+//@   loop 0 invariant forall id crypto.Hash :: forall k int :: has(spaces, id) && 0 <= k && k < len(spaces[id]) ==> spaces[id][k] != nil
+
+//@ func (node *Node) validateWorksAndSpacesAggregator
+//@   property C25
+//@   requires node != nil && !isnil(node.persistStore)
+//@   modifies nothing
+
+// ───────────── distribution ─────────────
+
+//@ -- WorkDay: the day whose counters are read, as the code computes it: uint32(day) - 1 (both steps wrap)
+//@ spec WorkDay(ts uint64) mathint = ((ts / OneDay) % 4294967296 - 1) % 4294967296
+//@ -- RawAt: the work of accepted node k on day d, from the stored counters
+//@ spec RawAt(acc []*CNode, d mathint, k int) mathint = RawWork(StoreLead(acc[k].IdForNetwork, d), StoreSign(acc[k].IdForNetwork, d))
+//@ -- SumShaped: Shape(a, work of node 0) + … + Shape(a, work of node n-1);  SumWork: the amounts held by the first n result entries
+//@ rec SumShaped(acc []*CNode, d mathint, a mathint, n int) mathint = n <= 0 ? 0 : SumShaped(acc, d, a, n - 1) + Shape(a, RawAt(acc, d, n - 1))
+//@ rec SumWork(ms []*CNodeWork, n int) mathint = n <= 0 ? 0 : SumWork(ms, n - 1) + val(ms[n - 1].Work)
+//@ recframe SumWork
+//@ reclimit SumWork, SumShaped, Cap
+//@ -- MintOf: result entry k is a new object carrying the identity of accepted node k
+//@ spec MintOf(ms []*CNodeWork, acc []*CNode, k int) bool = ms[k] != nil && fresh(ms[k]) && allocated(ms[k]) &&
+//@     ms[k].IdForNetwork == acc[k].IdForNetwork &&
+//@     ms[k].Payee.PublicViewKey == acc[k].Payee.PublicViewKey && ms[k].Payee.PublicSpendKey == acc[k].Payee.PublicSpendKey
+
+//@ func (node *Node) distributeKernelMintByWorks
+//@   property C25
+//@   uses ShapeMono, ShapeBounds, ShareMono, ShareSum, ShareAll, SharePositive, EqualSplit, AvgLower
+//@   requires NodeRep(node) && !isnil(node.persistStore) && val(base) >= 0 && len(accepted) >= 1
+//@   requires forall k int :: 0 <= k && k < len(accepted) ==> accepted[k] != nil && !fresh(accepted[k])
+//@   panics when timestamp / OneDay < node.Epoch / OneDay
+//@   modifies nothing
+//@   unreachable return@33   -- `avg.Sign() == 0`: the average of valid-2 >= 3 works of at least 1e8 each is never zero
+//@   ensures [len] err == nil ==> len(result0) == len(accepted)
+//@   ensures [elems] err == nil ==> forall k int :: 0 <= k && k < len(accepted) ==> MintOf(result0, accepted, k)
+//@   ensures [distinct] err == nil ==> forall a, b int :: 0 <= a && a < b && b < len(accepted) ==> result0[a] != result0[b]
+//@   ensures [sum] err == nil ==> SumWork(result0, len(result0)) <= val(base)
+//@   ensures [nonneg] err == nil ==> forall k int :: 0 <= k && k < len(accepted) ==> val(result0[k].Work) >= 0
+//@   ensures [positive] err == nil && val(base) >= 15 * len(accepted) ==> forall k int :: 0 <= k && k < len(accepted) ==> val(result0[k].Work) >= 1
+//@   ensures [monotone] err == nil ==> forall i, j int :: 0 <= i && i < len(accepted) && 0 <= j && j < len(accepted) &&
+//@       RawAt(accepted, WorkDay(timestamp), i) >= RawAt(accepted, WorkDay(timestamp), j) ==> val(result0[i].Work) >= val(result0[j].Work)
+//@   -- loop 0: the result entries are new, pairwise distinct objects carrying the identities of the accepted nodes
+//@   loop 0 invariant len(mints) == len(accepted) && len(cids) == len(accepted) && fresh(mints) && fresh(cids)
+//@   loop 0 invariant forall k int :: {accepted[k]} {mints[k]} {cids[k]} 0 <= k && k <= rangeindex ==> MintOf(mints, accepted, k) && cids[k] == accepted[k].IdForNetwork
+//@   loop 0 invariant forall a, b int :: 0 <= a && a < b && b <= rangeindex ==> mints[a] != mints[b]
+//@   -- loop 1 (first day): equal split
+//@   loop 1 invariant forall k int :: 0 <= k && k <= rangeindex ==> val(mints[k].Work) == val(base) / len(accepted)
+//@   loop 1 invariant [unfold] SumWork(mints, rangeindex + 1) == SumWork(mints, rangeindex) + (rangeindex >= 0 ? val(mints[rangeindex].Work) : 0)
+//@   loop 1 invariant [sum] SumWork(mints, rangeindex + 1) == (rangeindex + 1) * (val(base) / len(accepted))
+//@   -- loop 2: raw works and their statistics
+//@   loop 2 invariant [store] forall k int :: {accepted[k]} 0 <= k && k < len(accepted) ==> has(works, accepted[k].IdForNetwork) &&
+//@       works[accepted[k].IdForNetwork][0] == StoreLead(accepted[k].IdForNetwork, WorkDay(timestamp)) &&
+//@       works[accepted[k].IdForNetwork][1] == StoreSign(accepted[k].IdForNetwork, WorkDay(timestamp)) &&
+//@       0 <= StoreLead(accepted[k].IdForNetwork, WorkDay(timestamp)) && 0 <= StoreSign(accepted[k].IdForNetwork, WorkDay(timestamp))
+//@   loop 2 invariant [raw] forall k int :: {mints[k]} 0 <= k && k <= rangeindex ==> val(mints[k].Work) == RawAt(accepted, WorkDay(timestamp), k)
+//@   loop 2 invariant 0 <= valid && valid <= rangeindex + 1
+//@   loop 2 invariant valid == 0 ==> val(minW) == 0 && val(maxW) == 0 && val(totalW) == 0
+//@   loop 2 invariant valid >= 1 ==> val(minW) >= 100000000 && val(maxW) >= val(minW) && val(totalW) >= val(maxW) + (valid - 1) * 100000000
+//@   loop 2 invariant valid >= 2 ==> val(totalW) >= val(maxW) + val(minW) + (valid - 2) * 100000000
+//@   -- loop 3: shaping
+//@   loop 3 invariant forall k int :: 0 <= k && k <= rangeindex ==> val(mints[k].Work) == Shape(val(avg), RawAt(accepted, WorkDay(timestamp), k))
+//@   loop 3 invariant forall k int :: rangeindex < k && k < len(accepted) ==> val(mints[k].Work) == RawAt(accepted, WorkDay(timestamp), k)
+//@   loop 3 invariant val(totalW) == SumShaped(accepted, WorkDay(timestamp), val(avg), rangeindex + 1)
+//@   loop 3 invariant val(totalW) >= 0 && val(totalW) <= Cap(val(avg), rangeindex + 1) && (rangeindex >= 0 ==> val(totalW) >= val(avg) / 7)
+//@   -- loop 4: shares
+//@   loop 4 invariant forall k int :: 0 <= k && k <= rangeindex ==>
+//@       val(mints[k].Work) == Share(Shape(val(avg), RawAt(accepted, WorkDay(timestamp), k)), val(base), val(totalW))
+//@   loop 4 invariant forall k int :: rangeindex < k && k < len(accepted) ==> val(mints[k].Work) == Shape(val(avg), RawAt(accepted, WorkDay(timestamp), k))
+//@   loop 4 invariant [unfold] SumWork(mints, rangeindex + 1) == SumWork(mints, rangeindex) + (rangeindex >= 0 ? val(mints[rangeindex].Work) : 0)
+//@   loop 4 invariant [shaped-nonneg] SumShaped(accepted, WorkDay(timestamp), val(avg), rangeindex + 1) >= 0
+//@   loop 4 invariant [sum] SumWork(mints, rangeindex + 1) <= Share(SumShaped(accepted, WorkDay(timestamp), val(avg), rangeindex + 1), val(base), val(totalW))
+
+// ───────────── the mint transaction ─────────────
+
+//@ -- BatchOf: the batch (day) number of a timestamp, as checkUniversalMintPossibility computes it
+//@ spec BatchOf(node *Node, ts uint64) mathint = (ts - node.Epoch) / 3600000000000 / 24
+//@ -- MintTime: the part of the state of *Node the mint code relies on
+//@ spec MintNode(node *Node) bool = NodeRep(node) && !isnil(node.persistStore)
+
+//@ -- storage.BadgerStore.ReadLastMintDistribution: reads only. ASSUMED store invariant: a recorded mint distribution is at least the size
+//@ -- of its batch (it was produced by mintMultiBatchesSize: lemma CumGap) — the stored amount is what validateMintSnapshot re-mints.
+//@ assume func (s storage.Store) ReadLastMintDistribution(batch)
+//@   modifies nothing
+//@   ensures err == nil && result0 != nil ==> !fresh(result0) && val(result0.Amount) >= Size(result0.Batch)
+
+//@ func (node *Node) lastMintDistribution
+//@   property C25
+//@   uses MintFloor
+//@   requires node != nil && !isnil(node.persistStore)
+//@   maypanic   -- a storage failure and a recorded batch below 1706 (corrupt store) are fatal by design
+//@   modifies nothing
+//@   ensures [dist] result != nil && result.Batch >= KernelNetworkLegacyEnding && val(result.Amount) >= Size(result.Batch)
+
+//@ func (node *Node) checkUniversalMintPossibility
+//@   property C25
+//@   uses Horizon, CumGap
+//@   requires node != nil && !isnil(node.persistStore)
+//@   -- [horizon]: the last batch with a positive size is 81029 (year 221 of the schedule, lemma Horizon); beyond it amount.Add panics
+//@   requires [horizon] timestamp > node.Epoch ==> BatchOf(node, timestamp) / 365 <= 221
+//@   modifies nothing
+//@   ensures [batch] val(result1) > 0 ==> result0 == BatchOf(node, timestamp) && timestamp > node.Epoch
+//@   ensures [floor] val(result1) > 0 ==> val(result1) >= Size(result0)
+//@   ensures [nonneg] val(result1) >= 0
+
+//@ -- SumOut: the amounts of the first n outputs
+//@ rec SumOut(outs []*common.Output, n int) mathint = n <= 0 ? 0 : SumOut(outs, n - 1) + val(outs[n - 1].Amount)
+//@ recframe SumOut
+//@ reclimit SumOut
+//@ -- MintView: every cached accepted-membership view has 1..254 members (AddOutputWithType rejects a 257th output) whose payee keys are
+//@ -- curve points, and there is a view before the timestamp (the genesis view)
+//@ spec PayeesOK(l []*CNode) bool = len(l) >= 1 && len(l) + 2 <= common.SliceCountLimit &&
+//@     forall j int :: 0 <= j && j < len(l) ==> common.AddrPointsOK(&l[j].Payee)
+//@ spec MintView(node *Node, ts uint64) bool = !NoList(node.acceptedNodeStateSequences, ts) &&
+//@     forall i int :: 0 <= i && i < len(node.acceptedNodeStateSequences) ==> PayeesOK(node.acceptedNodeStateSequences[i].NodesWithoutState)
+
+//@ -- ReadLastConsensusSnapshotWithHack: reads the store (and panics on a storage failure); the snapshot it returns exists.
+//@ assume func (node *Node) ReadLastConsensusSnapshotWithHack
+//@   modifies nothing
+//@   ensures result0 != nil && !fresh(result0)
+
+//@ func (node *Node) buildUniversalMintTransaction
+//@   property C25
+//@   uses MintFloor
+//@   requires MintNode(node) && MintView(node, timestamp)
+//@   requires custodianRequest != nil && common.AddrPointsOK(custodianRequest.Custodian) && !fresh(custodianRequest.Custodian)
+//@   -- [horizon]: during the first 101 years of the schedule every batch is at least 363854 (lemma MintFloor), which keeps every one of
+//@   -- up to 254 kernel outputs, the custodian output and the light output positive; later Integer.Add would reject a zero share (panic)
+//@   requires [horizon] timestamp > node.Epoch ==> BatchOf(node, timestamp) / 365 <= 100
+//@   maypanic   -- only through lastMintDistribution / ReadLastConsensusSnapshotWithHack (storage failure); the two `total > amount` panics are proved unreachable
+//@   modifies nothing
+//@   ensures [input] result != nil ==> len(result.Inputs) == 1 && result.Inputs[0] != nil && result.Inputs[0].Mint != nil &&
+//@       result.Inputs[0].Mint.Batch == BatchOf(node, timestamp) && val(result.Inputs[0].Mint.Amount) >= Size(BatchOf(node, timestamp))
+//@   ensures [count] result != nil ==> len(result.Outputs) >= 3
+//@   ensures [sum] result != nil ==> SumOut(result.Outputs, len(result.Outputs)) == val(result.Inputs[0].Mint.Amount)
+//@   ensures [kernel-half] result != nil ==> 2 * SumOut(result.Outputs, len(result.Outputs) - 2) <= val(result.Inputs[0].Mint.Amount)
+//@   ensures [custodian] result != nil ==> val(result.Outputs[len(result.Outputs) - 2].Amount) == val(result.Inputs[0].Mint.Amount) / 10 * 4
+//@   ensures [positive] result != nil ==> forall k int :: 0 <= k && k < len(result.Outputs) ==> result.Outputs[k] != nil && val(result.Outputs[k].Amount) >= 1
+//@   -- [monotone]: output k goes to member k of the accepted view at `timestamp` (ListIdx: the last cached view before it) and carries that
+//@   -- member's share: a member with more work (RawAt: from the stored counters of the previous day) never gets less
+//@   ensures [monotone] result != nil ==> exists v int :: ListIdx(node.acceptedNodeStateSequences, timestamp, v) &&
+//@       len(result.Outputs) == len(node.acceptedNodeStateSequences[v].NodesWithoutState) + 2 &&
+//@       (forall i, j int :: 0 <= i && i < len(result.Outputs) - 2 && 0 <= j && j < len(result.Outputs) - 2 &&
+//@          old(RawAt(node.acceptedNodeStateSequences[v].NodesWithoutState, WorkDay(timestamp), i)) >=
+//@          old(RawAt(node.acceptedNodeStateSequences[v].NodesWithoutState, WorkDay(timestamp), j)) ==>
+//@          val(result.Outputs[i].Amount) >= val(result.Outputs[j].Amount))
+//@   hint return [view] result != nil ==> exists v int :: ListIdx(node.acceptedNodeStateSequences, timestamp, v) && accepted == node.acceptedNodeStateSequences[v].NodesWithoutState
+//@   hint return [mono-accepted] result != nil ==> len(result.Outputs) == len(accepted) + 2 &&
+//@       (forall i, j int :: 0 <= i && i < len(accepted) && 0 <= j && j < len(accepted) &&
+//@          old(RawAt(accepted, WorkDay(timestamp), i)) >= old(RawAt(accepted, WorkDay(timestamp), j)) ==> val(result.Outputs[i].Amount) >= val(result.Outputs[j].Amount))
+//@   hint after (*kernel.Node).distributeKernelMintByWorks PayeesOK(accepted)
+//@   hint after (*common.Transaction).AddScriptOutput [all-positive] forall k int :: 0 <= k && k < len(tx.Outputs) ==> tx.Outputs[k] != nil && val(tx.Outputs[k].Amount) >= 1
+//@   hint after (*common.Transaction).AddScriptOutput [kernel-outs] forall k int :: 0 <= k && k < len(mints) && k < len(tx.Outputs) ==> val(tx.Outputs[k].Amount) == val(mints[k].Work)
+//@   hint after (*common.Transaction).AddScriptOutput [unfold] SumOut(tx.Outputs, len(tx.Outputs)) ==
+//@       SumOut(tx.Outputs, len(tx.Outputs) - 1) + val(tx.Outputs[len(tx.Outputs) - 1].Amount)
+//@   loop 0 invariant [tx] tx != nil && fresh(tx) && (cap(tx.Outputs) == 0 || fresh(tx.Outputs)) && len(tx.Outputs) == rangeindex + 1 && tx.Version == common.TxVersionHashSignature &&
+//@       len(tx.Inputs) == 1 && tx.Inputs[0] != nil && tx.Inputs[0].Mint != nil && val(tx.Inputs[0].Mint.Amount) == val(amount) && tx.Inputs[0].Mint.Batch == batch
+//@   loop 0 invariant [outs] forall k int :: 0 <= k && k <= rangeindex ==>
+//@       tx.Outputs[k] != nil && allocated(tx.Outputs[k]) && fresh(tx.Outputs[k]) && val(tx.Outputs[k].Amount) >= 1
+//@   loop 0 invariant [outs-eq] forall k int :: 0 <= k && k <= rangeindex ==> val(tx.Outputs[k].Amount) == val(mints[k].Work)
+//@   loop 0 invariant [mints] len(mints) == len(accepted) && (forall k int :: 0 <= k && k < len(mints) ==> MintOf(mints, accepted, k) && val(mints[k].Work) >= 1 && common.AddrPointsOK(&mints[k].Payee))
+//@   loop 0 invariant [mints-sum] SumWork(mints, len(mints)) <= val(kernel)
+//@   loop 0 invariant [unfold] SumWork(mints, rangeindex + 1) == SumWork(mints, rangeindex) + (rangeindex >= 0 ? val(mints[rangeindex].Work) : 0)
+//@   loop 0 invariant [total] val(total) >= 0 && val(total) == SumWork(mints, rangeindex + 1) && val(total) == SumOut(tx.Outputs, rangeindex + 1)
